@@ -259,9 +259,19 @@ func VerifyArtifacts(items []interface{},
 		created := productPaths.Difference(materialPaths)
 		deleted := materialPaths.Difference(productPaths)
 		remained := materialPaths.Intersection(productPaths)
+		// The sets above hold normalized paths, so the hashes have to be looked
+		// up by normalized path, too (a link may record "./foo" or "dir//foo")
+		materialHashes := make(map[string]HashObj, len(materials))
+		for p, hashes := range materials {
+			materialHashes[path.Clean(p)] = hashes
+		}
+		productHashes := make(map[string]HashObj, len(products))
+		for p, hashes := range products {
+			productHashes[path.Clean(p)] = hashes
+		}
 		modified := NewSet()
 		for name := range remained {
-			if !reflect.DeepEqual(materials[name], products[name]) {
+			if !reflect.DeepEqual(materialHashes[name], productHashes[name]) {
 				modified.Add(name)
 			}
 		}
